@@ -191,6 +191,24 @@ def axis_cases(ao, printed):
                         break
                 if not ok:
                     break
+    # operands of different rank (numpy broadcasting): ONE Cn2 profile against a stack of wind / altitude profiles, and a stack of
+    # Cn2 profiles against one wind / altitude profile - the default axis is the LAYER axis (the last one) of the broadcast product,
+    # and every entry is what the call on that profile alone returns
+    rng = np.random.default_rng(3)
+    for L, T in ((4, 3), (3, 3), (5, 2)):
+        cn1 = (1.0 + rng.random(L)) * 1e-15
+        cnT = (1.0 + rng.random((T, L))) * 1e-15
+        w1 = 5.0 + 10 * rng.random(L)
+        wT = 5.0 + 10 * rng.random((T, L))
+        for name, f in (("coherenceTime", lambda a, w: ac.coherenceTime(a, w, 5e-7)), ("isoplanaticAngle", lambda a, w: ac.isoplanaticAngle(a, 100.0 * w, 5e-7)),
+                        ("rytov_variance", lambda a, w: ac.rytov_variance(a, 100.0 * w, 5e-7))):
+            for label, a_, w_ in (("one-profile-against-a-stack", cn1, wT), ("stack-against-one-profile", cnT, w1), ("stack-against-stack", cnT, wT)):
+                got = np.asarray(f(a_.copy(), w_.copy()), float)
+                want = np.array([float(f((a_[t] if a_.ndim == 2 else a_).copy(), (w_[t] if w_.ndim == 2 else w_).copy())) for t in range(T)])
+                n += 1
+                if got.shape != want.shape or not np.allclose(got, want, rtol=1e-12, atol=0):
+                    bad.append(("%s:axis-argument:operands-of-different-rank" % name, dict(case=label, layers=L, profiles=T, got_shape=list(got.shape))))
+                    return bad, n
     return bad, n
 
 
